@@ -88,13 +88,15 @@ Proof.
     - exists x. rewrite Hs at 1. reflexivity.
     - exists Moved. reflexivity. }
   destruct Hs1 as (y & Hs1).
+  assert (Sz : size st1 = size st /\ cap st1 = cap st) by (subst st1; auto).
+  destruct Sz as (Sz & Cz). clearbody st1.
   rewrite assign_val_nofault in H.
   2:{ rewrite Hs1, app_length. simpl. lia. }
   inversion H; subst st' o. clear H. unfold abs at 1. cbn [size slots cap set_size].
   repeat split; auto.
   rewrite Hs1. rewrite upd_app_at by auto.
   replace (S (size st1)) with (length (firstn key (abs st) ++ v :: skipn key (abs st))).
-  2:{ rewrite app_length. simpl. rewrite Lp, Lm. subst st1; simpl. lia. }
+  2:{ rewrite app_length. simpl. rewrite Lp, Lm. lia. }
   change (firstn key (abs st) ++ v :: skipn key (abs st) ++ skipn (S (size st)) (slots st))
     with (firstn key (abs st) ++ (v :: skipn key (abs st)) ++ skipn (S (size st)) (slots st)).
   rewrite app_assoc. apply firstn_app_exact.
@@ -156,17 +158,18 @@ Proof.
     inversion H; auto. }
   apply Nat.leb_gt in Ek. assert (E : (key <? size st) = true) by (apply Nat.ltb_lt; lia). rewrite E.
   destruct (split_at (abs st) key) as [x Hx]; [lia|].
-  assert (Hs : slots st = firstn key (abs st) ++ x :: skipn (S key) (abs st) ++ skipn (size st) (slots st)).
-  { rewrite (slots_split Q st) at 1 by (repeat split; auto). rewrite Hx at 1. rewrite <- app_assoc. reflexivity. }
-  assert (Lp : length (firstn key (abs st)) = key) by (rewrite firstn_length; lia).
   assert (Lm : length (skipn (S key) (abs st)) = Nat.min (size st) (cap st) - S key) by (rewrite skipn_length; lia).
+  remember (skipn (S key) (abs st)) as mid eqn:Em.
+  remember (firstn key (abs st)) as pre eqn:Ep.
+  assert (Lp : length pre = key) by (subst pre; rewrite firstn_length; lia).
+  assert (Hs : slots st = pre ++ x :: mid ++ skipn (size st) (slots st)).
+  { rewrite (slots_split Q st) at 1 by (repeat split; auto). rewrite Hx at 1. rewrite <- app_assoc. reflexivity. }
   rewrite (shift_down_exact _ _ _ _ _ _ _ Hs Lp Lm) in H.
   inversion H; subst st' o. clear H. unfold abs at 1. cbn [size slots cap set_size].
   repeat split; auto.
-  replace (size st - 1) with (length (firstn key (abs st) ++ skipn (S key) (abs st))).
-  2:{ rewrite app_length, Lp, skipn_length. lia. }
-  destruct (skipn (S key) (abs st)) eqn:Em.
-  - rewrite Hs. rewrite app_nil_r. simpl. apply firstn_app_exact.
+  replace (size st - 1) with (length (pre ++ mid)) by (rewrite app_length, Lp, Lm; lia).
+  destruct mid.
+  - rewrite Hs. rewrite app_nil_r. apply firstn_app_exact.
   - rewrite app_assoc. apply firstn_app_exact.
 Qed.
 
@@ -194,13 +197,11 @@ Proof.
       2:{ rewrite W1, W2. now rewrite upd_length. }
       2:{ rewrite W3. destruct (key =? size st) eqn:Ek; [apply Nat.eqb_eq in Ek|apply Nat.eqb_neq in Ek]; lia. }
       2:{ rewrite W1, W3. destruct (key =? size st) eqn:Ek; [apply Nat.eqb_eq in Ek|]; lia. }
-      rewrite W1, W2, W3. cbn [firstn length]. f_equal.
-      * f_equal.
+      rewrite W1, W2, W3. rewrite !firstn_cons. cbn [length]. f_equal.
+      f_equal.
         -- destruct (key =? size st) eqn:Ek; [apply Nat.eqb_eq in Ek|apply Nat.eqb_neq in Ek]; lia.
         -- rewrite firstn_S_upd by lia. rewrite skipn_upd_gt by lia.
-           rewrite <- app_assoc. simpl. repeat f_equal. lia.
-      * cbn [length]. destruct (length r <=? cap st - S key) eqn:E1; destruct (S (length r) <=? S (cap st - S key)) eqn:E2; auto;
-          [apply Nat.leb_le in E1; apply Nat.leb_gt in E2|apply Nat.leb_gt in E1; apply Nat.leb_le in E2]; lia.
+           rewrite <- app_assoc. simpl. rewrite Nat.add_succ_r. reflexivity.
 Qed.
 
 Lemma insert_range_refines (Q : slot -> Prop) key xs st st' o : GInv Q st -> insert_range None key xs st = (st', o) ->
@@ -305,7 +306,7 @@ Qed.
 
 Lemma front_refines (Q : slot -> Prop) st : GInv Q st -> 0 < size st -> exists s, front st = Val s /\ hd_error (abs st) = Some s.
 Proof.
-  intros HI Hs. destruct (index_live Q st 0 HI Hs) as (s & E1 & E2). exists s. split; auto.
+  intros HI Hs. destruct (index_live Q st 0 HI Hs) as (s & E1 & E2). exists s. split; [exact E1|].
   destruct (abs st); simpl in *; congruence.
 Qed.
 
